@@ -9,10 +9,15 @@ import time
 import traceback
 
 
+LAST_ELAPSED = []
+
+
 def run_jobs(func, args_list, nproc=None, timeout=120, progress=None):
     """-> list of ('ok', value) | ('timeout', None) | ('crash', text), in the order of args_list"""
     nproc = nproc or int(os.environ.get("VERIF_NPROC", os.cpu_count() or 4))
     results = [None] * len(args_list)
+    global LAST_ELAPSED
+    LAST_ELAPSED = [0.0] * len(args_list)
     pending = list(enumerate(args_list))[::-1]
     live = {}  # pid -> (idx, read fd, t0, buf)
     done = 0
@@ -67,6 +72,7 @@ def run_jobs(func, args_list, nproc=None, timeout=120, progress=None):
                     results[idx] = pickle.loads(buf)
                 except Exception:
                     results[idx] = ("crash", f"child exited with status {status} and no result")
+                LAST_ELAPSED[idx] = time.time() - t0
                 del live[pid]
                 done += 1
                 if progress:
@@ -79,8 +85,14 @@ def run_jobs(func, args_list, nproc=None, timeout=120, progress=None):
                     pass
                 os.close(r)
                 results[idx] = ("timeout", None)
+                LAST_ELAPSED[idx] = time.time() - t0
                 del live[pid]
                 done += 1
                 if progress:
                     progress(done, len(args_list))
     return results
+
+
+def slowest(items, key, n=8):
+    order = sorted(range(len(items)), key=lambda i: -LAST_ELAPSED[i])[:n]
+    return [(round(LAST_ELAPSED[i], 1), key(items[i])) for i in order]
